@@ -134,3 +134,87 @@ Proof.
   split; [vm_compute; reflexivity|]. split; [|vm_compute; reflexivity].
   eexists. split; [vm_compute; reflexivity|]. split; vm_compute; reflexivity.
 Qed.
+
+(* ================================================================== MACHINE INTEGERS
+   (appended; Model/Limit64.v = limit_plan.go / the skip-limit code of aggregate_plan.go with every
+   Go int a [Z] and every sum / difference the Go code forms wrapped to int64 by Base.Num.wrap64;
+   Proofs/Limit64Proofs.v).  The theorems above are about Model/Limit.v, whose counters are
+   unbounded [nat]; these close that gap: for every Start, Count in 0 .. 2^63-1 (everything
+   parseLimit can produce: a NUMBER token is a text strconv.ParseInt accepts, Limit64Parse below),
+   every PlanBatchSize (any int) and every child stream with fewer than 2^63 rows, the machine twin
+   returns exactly what the unbounded twin returns -- no value the code forms (skips++, current++,
+   Start - skips, skips += nrows, skips += restSkips, count++) leaves the int64 range; the code
+   forms no Start + Count.  The machine twin is run UNCLAMPED on offsets and counts up to 2^63-1
+   by the correspondence (Corr/C08M.v). *)
+From KV Require Import Base.Num Model.Limit64 Proofs.Limit64Proofs.
+
+Theorem limit64_refines_nat : forall (A : Type) (B s n : Z) (bs : list (list A)),
+  (0 <= s < 2 ^ 63)%Z -> (0 <= n < 2 ^ 63)%Z -> (Z.of_nat (tot bs) < 2 ^ 63)%Z ->
+  drain_batch64 B s n bs = drain_batch true (Z.to_nat B) (Z.to_nat s) (Z.to_nat n) bs.
+Proof. exact limit64_refines_nat_lemma. Qed.
+Print Assumptions limit64_refines_nat.
+
+(* row mode: no premise on the child at all *)
+Theorem limit64_row_refines_nat : forall (A : Type) (s n : Z) (rows : list A),
+  (0 <= s < 2 ^ 63)%Z -> (0 <= n < 2 ^ 63)%Z ->
+  drain_row64 s n rows = drain_row (Z.to_nat s) (Z.to_nat n) rows.
+Proof. exact limit64_row_refines_nat_lemma. Qed.
+Print Assumptions limit64_row_refines_nat.
+
+(* the C08 statement over the machine twin (LimitPlan / FinalLimitPlan .Batch drained) *)
+Theorem limit_machine_slice : forall (A : Type) (B s n : Z) (bs : list (list A)),
+  (0 <= s < 2 ^ 63)%Z -> (0 <= n < 2 ^ 63)%Z -> (Z.of_nat (tot bs) < 2 ^ 63)%Z ->
+  Forall nonempty bs ->
+  exists outs, drain_batch64 B s n bs = Some outs /\
+               List.concat outs = firstn (Z.to_nat n) (skipn (Z.to_nat s) (List.concat bs)) /\
+               Forall nonempty outs.
+Proof. exact limit_machine_batch_slice. Qed.
+Print Assumptions limit_machine_slice.
+
+(* ... .Next drained *)
+Theorem limit_machine_slice_row : forall (A : Type) (s n : Z) (rows : list A),
+  (0 <= s < 2 ^ 63)%Z -> (0 <= n < 2 ^ 63)%Z ->
+  drain_row64 s n rows = Some (firstn (Z.to_nat n) (skipn (Z.to_nat s) rows)).
+Proof. exact limit_machine_row_slice. Qed.
+Print Assumptions limit_machine_slice_row.
+
+(* the skip / limit pushed into AggregatePlan (fields Start, Limit; Limit = -1: no limit, every
+   prepared row is served and Start is ignored) *)
+Theorem aggr_machine_slice : forall (A : Type) (B s n : Z) (bs : list (list A)),
+  (0 <= s < 2 ^ 63)%Z -> (n < 2 ^ 63)%Z -> (Z.of_nat (tot bs) < 2 ^ 63)%Z ->
+  Forall nonempty bs ->
+  exists outs, agg_drain_batch64 B s n bs = Some outs /\
+               List.concat outs = agg_slice s n (List.concat bs) /\
+               Forall nonempty outs.
+Proof. exact agg_machine_batch_slice. Qed.
+Print Assumptions aggr_machine_slice.
+
+Theorem aggr_machine_slice_row : forall (A : Type) (s n : Z) (rows : list A),
+  (0 <= s < 2 ^ 63)%Z -> (n < 2 ^ 63)%Z ->
+  agg_drain_row64 s n rows = Some (agg_slice s n rows).
+Proof. exact agg_machine_row_slice. Qed.
+Print Assumptions aggr_machine_slice_row.
+
+(* non-vacuity at the extremes: `limit 9223372036854775807, 9223372036854775807`,
+   `limit 1, 9223372036854775807`, `limit 0, 9223372036854775807` meet the premises and the machine
+   twin computes the slices there (nothing is clamped) *)
+Example limit_machine_slice_extremes :
+  let m := (2 ^ 63 - 1)%Z in
+  let bs := [[1; 2]; [3]; [4; 5; 6]]%nat in
+  ((0 <= m < 2 ^ 63)%Z /\ (0 <= 1 < 2 ^ 63)%Z /\ (Z.of_nat (tot bs) < 2 ^ 63)%Z /\ Forall nonempty bs) /\
+  drain_batch64 2 m m bs = Some [] /\
+  drain_batch64 2 1 m bs = Some [[2; 3]; [4; 5; 6]]%nat /\
+  drain_batch64 2 0 m bs = Some [[1; 2]; [3; 4; 5; 6]]%nat /\
+  drain_batch64 2 (m - 1) 1 bs = Some [] /\
+  drain_row64 1 m (List.concat bs) = Some [2; 3; 4; 5; 6]%nat /\
+  drain_row64 m 1 (List.concat bs) = Some [] /\
+  agg_drain_batch64 2 1 m [[1; 2]; [3]]%nat = Some [[2; 3]]%nat /\
+  agg_drain_batch64 2 0 (-1) [[1; 2]; [3]]%nat = Some [[1; 2]; [3]]%nat.
+Proof.
+  cbv zeta. split.
+  { split; [vm_compute; split; [discriminate|reflexivity]|].
+    split; [vm_compute; split; [discriminate|reflexivity]|].
+    split; [vm_compute; reflexivity|].
+    repeat constructor; unfold nonempty; congruence. }
+  repeat split; vm_compute; reflexivity.
+Qed.
